@@ -2,6 +2,7 @@ package appdrv
 
 import (
 	"fmt"
+	rctypes "github.com/rigochain/rigo-go/ctrlers/types"
 	"math/big"
 
 	"github.com/rigochain/rigo-go/libs/web3"
@@ -197,6 +198,36 @@ func init() {
 			s.expect(OK(s.CallC(6, child, nil, "0", cgas)), "contract call to the child")
 			s.TransferTo(6, child, "9", cgas) // plain transfer to a contract that was created by a contract
 			s.expect(OK(s.CallC(6, child, nil, "0", cgas)), "contract call to the child after the transfer")
+			s.End()
+			s.Blocks(1, allHdr)
+		}},
+		Directed{"payload_injection", []string{"C03"}, fam(0), func(s *Script) {
+			// a signed plain transfer to a contract, delivered with a payload somebody else attached (input data naming
+			// another receiver); a transfer has no payload: the bytes are not covered by the signature and must not be
+			// executed either - the delivered bytes do exactly what the signed transaction does
+			kr := s.R.KR
+			chain := s.Sc.Genesis.ChainID
+			s.Blocks(2, allHdr)
+			s.Begin(allHdr)
+			ev, fw := s.Deploy(4, prog("forwarder", nil), 0, "0", cgas)
+			s.expect(OK(ev), "deploy forwarder")
+			s.End()
+			s.Begin(allHdr)
+			for i, inject := range [][]byte{word(kr.Addr(6)), {}, {1, 2, 3}} {
+				good := s.B.Sign(web3.NewTrxTransfer(kr.Addr(5), fw, s.nonce(5), cgas, s.price(), Amt("1000")), 5, chain)
+				m := cloneTx(good)
+				m.Payload = &rctypes.TrxPayloadContract{Data: inject}
+				s.do(Op{Kind: "deliver", Tx: HexTx(Encode(m)), RefTx: HexTx(good), Tag: fmt.Sprintf("transfer:tocontract:injected%d", i)})
+			}
+			// the same on a plain account and for a staking transaction
+			good := s.B.Sign(s.TxTransfer(5, 6, "1000"), 5, chain)
+			m := cloneTx(good)
+			m.Payload = &rctypes.TrxPayloadContract{Data: word(kr.Addr(4))}
+			s.do(Op{Kind: "deliver", Tx: HexTx(Encode(m)), RefTx: HexTx(good), Tag: "transfer:injected"})
+			good = s.B.Sign(s.TxStake(5, 1, "2e18"), 5, chain)
+			m = cloneTx(good)
+			m.Payload = &rctypes.TrxPayloadUnstaking{TxHash: make([]byte, 32)}
+			s.do(Op{Kind: "deliver", Tx: HexTx(Encode(m)), RefTx: HexTx(good), Tag: "staking:injected"})
 			s.End()
 			s.Blocks(1, allHdr)
 		}},
